@@ -1,7 +1,12 @@
-(* C03 (kinds CRREF / CRMINUS / CR): crash at every crash point, restart, catch up, finish; compare
+(* C03 (kinds CRTR / CRREF / CRMINUS / CR): crash at every crash point, restart, catch up, finish; compare
    with the uninterrupted run (and, for a request lost in the crash, with the run without that
    request).  The integrity predicate and the balance are the extracted Coq definitions
-   (Crash.db_inv_b, Crash.balance). *)
+   (Crash.db_inv_b, Crash.balance).
+   CRTR: the tie between the model's durable traces and the code: the micro steps (statement kinds,
+   RPCs, reply) the real code went through in every operation of the uninterrupted run must be the
+   extracted CrashOps.op_segs of the model on the same operation and state (a Par segment: up to the
+   order of its groups), and the model's tables after the operation the implementation's.  CR: the
+   database as the kill left it must be CrashOps.crash_at k of the operation the crash point lies in. *)
 open Model
 open Driver_util
 
@@ -38,8 +43,69 @@ let split_at (key : string) (l : string list) : string list * string list =
 type refrun = { kinds : string array; costs : (int * (int * int * int)) list; final : tables; sends : int list }
 let refs : (int, refrun) Hashtbl.t = Hashtbl.create 16
 let minus : (int * int, tables * int list) Hashtbl.t = Hashtbl.create 64
+(* the same two runs with the poll a restart makes at once (when blocks were pending at that step) *)
+let refp : (int * int, tables * int list) Hashtbl.t = Hashtbl.create 64
+let minusp : (int * int, tables * int list) Hashtbl.t = Hashtbl.create 64
 
 let cases = ref 0 and mon_fail = ref 0 and crash_points = ref 0
+let corr_fail = ref 0 and tr_ops = ref 0 and tr_stmts = ref 0 and crashdb_cmp = ref 0 and crashdb_skip = ref 0
+let tr_kinds : (string, int) Hashtbl.t = Hashtbl.create 32
+
+(* ---------------- the model run along the uninterrupted history (CRTR) ---------------- *)
+let log_enabled = true
+
+type oprec = { first : int; nlab : int; before : tower option; mop : op option; msc : (n * (getraw_ans * send_ans)) list;
+               par : (int * int) list; text : string }
+let hist_ops : (int, oprec list) Hashtbl.t = Hashtbl.create 16
+
+let tok_of_kind = function
+  | SInsUser _ -> "IU" | SUpdUser _ -> "UU" | SUpdSlots _ -> "UU" | SDelUsers _ -> "DU"
+  | SInsApp _ -> "IA" | SUpdApp _ -> "UA" | SDelApps _ -> "DA" | SInsTrk _ -> "IT" | SUpdTrk _ -> "UT"
+  | STxn _ -> "T?"
+let tok_of_stmt = function
+  | STxn l -> "T[" ^ String.concat "+" (List.map tok_of_kind l) ^ "]"
+  | s -> tok_of_kind s
+let tok_of_micro = function
+  | MStmt s -> tok_of_stmt s
+  | MRpc r -> (match r.r_kind with K_getraw -> "RG" | K_send -> "RS")
+  | MAck -> "ACK"
+
+let rec strip_prefix (p : string list) (l : string list) : string list option =
+  match p, l with
+  | [], _ -> Some l
+  | x :: p', y :: l' when x = y -> strip_prefix p' l'
+  | _ -> None
+
+(* the implementation's token list against the model's segments; the groups of a Par in any order *)
+let rec match_segs (segs : string list list list) (impl : string list) : bool =
+  match segs with
+  | [] -> impl = []
+  | [g] :: rest -> (match strip_prefix g impl with Some r -> match_segs rest r | None -> false)
+  | gs :: rest -> match_par (List.filter (fun g -> g <> []) gs) impl rest
+and match_par gs impl rest =
+  if gs = [] then match_segs rest impl
+  else
+    let rec try_each pre = function
+      | [] -> false
+      | g :: post ->
+          (match strip_prefix g impl with
+           | Some r when match_par (List.rev_append pre post) r rest -> true
+           | _ -> try_each (g :: pre) post) in
+    try_each [] gs
+
+let segs_tokens (segs : seg list) : string list list list =
+  List.map (function Seq l -> [List.map tok_of_micro l] | Par gs -> List.map (List.map tok_of_micro) gs) segs
+let show_segs (s : string list list list) =
+  String.concat " " (List.map (fun gs -> match gs with
+    | [g] -> String.concat "," g
+    | _ -> "{" ^ String.concat " | " (List.map (String.concat ",") gs) ^ "}") s)
+
+let rows_users d = List.sort compare (List.map (fun (u, ui) -> [int_of_n u; int_of_n ui.u_slots; int_of_n ui.u_start; int_of_n ui.u_expiry]) d.d_users)
+let rows_apps d = List.sort compare (List.map (fun a -> [int_of_n a.a_loc; int_of_n a.a_user; int_of_n a.a_blob.b_key;
+    (match a.a_blob.b_pay with Some p -> int_of_n p | None -> -1); int_of_n a.a_blob.b_len; int_of_n a.a_delay; int_of_n a.a_start]) d.d_apps)
+let rows_trks d = List.sort compare (List.map (fun k -> [int_of_n k.t_loc; int_of_n k.t_user; int_of_n k.t_dispute; int_of_n k.t_penalty;
+    int_of_n k.t_height; (if k.t_conf then 1 else 0)]) d.d_trks)
+let show_rows rows = String.concat "/" (List.map (fun r -> String.concat "," (List.map string_of_int r)) rows)
 let labels : (string, int) Hashtbl.t = Hashtbl.create 8
 let distinct : (string, unit) Hashtbl.t = Hashtbl.create 256
 let bump t k = Hashtbl.replace t k (1 + (try Hashtbl.find t k with Not_found -> 0))
@@ -55,6 +121,105 @@ let rec multiset_incl a b = (* a ⊆ b, both sorted *)
 let norm_trks (t : int list list) = List.sort compare (List.map (function [l; u; d; p; h; c] -> if c = 0 then [l; u; d; p; 0; 0] else [l; u; d; p; h; c] | r -> r) t)
 (* the signature id is an artefact of the harness's numbering *)
 let norm_apps (a : int list list) = List.sort compare (List.map (function [l; u; k; p; len; d; _sg; st] -> [l; u; k; p; len; d; st] | r -> r) a)
+
+let corr lineno what detail =
+  incr corr_fail;
+  Printf.printf "FAIL corr prop=C03 line=%d what=%s %s\n" lineno what detail
+
+let norm_apps_nosig (a : int list list) = List.sort compare (List.map (function [l; u; k; p; len; d; _sg; st] -> [l; u; k; p; len; d; st] | r -> r) a)
+
+(* model tables against dumped tables; returns the first differing table *)
+let diff_tables d (t : tables) : (string * string * string) option =
+  if rows_users d <> List.sort compare t.users then Some ("users", show_rows (rows_users d), show_rows (List.sort compare t.users))
+  else if rows_apps d <> norm_apps_nosig t.apps then Some ("appointments", show_rows (rows_apps d), show_rows (norm_apps_nosig t.apps))
+  else if rows_trks d <> List.sort compare t.trks then Some ("trackers", show_rows (rows_trks d), show_rows (List.sort compare t.trks))
+  else None
+
+let handle_tr lineno _line (r : reader) =
+  let h = next_int r in
+  let slots = next_int r in let duration = next_int r in let delta = next_int r in let h0 = next_int r in let nops = next_int r in
+  let expect s = let t = next r in if t <> s then failwith (Printf.sprintf "CRTR: expected %s got %s at %d" s t r.pos) in
+  expect ";";
+  let cfg = { c_slots = n_of_int slots; c_duration = n_of_int duration; c_delta = n_of_int delta } in
+  let last_blocks = List.init 100 (fun k -> (n_of_int (1000 + h0 - k), [])) in
+  let t = ref (init cfg (n_of_int h0) last_blocks) in
+  let recs = ref [] in
+  for _i = 1 to nops do
+    expect "OP";
+    let stepi = next_int r in let first = next_int r in let nlab = next_int r in
+    let tag = next r in
+    let sgpos = ref 0 in
+    let mk : (int -> op) option =
+      (match tag with
+       | "R" -> let u = next_int r in Some (fun _ -> ORegister (n_of_int u))
+       | "A" -> let signer = next_int r in let _cls = next_int r in let loc = next_int r in
+                let key = next_int r in let pay = next_int r in let len = next_int r in let delay = next_int r in let _salt = next_int r in
+                Some (fun sg -> OAdd ((if signer >= 0 then Some (n_of_int signer) else None), n_of_int loc,
+                                      { b_key = n_of_int key; b_pay = (if pay >= 0 then Some (n_of_int pay) else None); b_len = n_of_int len },
+                                      n_of_int delay, n_of_int sg))
+       | "G" -> let signer = next_int r in let _ = next_int r in let loc = next_int r in
+                Some (fun _ -> OGet ((if signer >= 0 then Some (n_of_int signer) else None), n_of_int loc))
+       | "S" -> let signer = next_int r in let _ = next_int r in Some (fun _ -> OGetSub (if signer >= 0 then Some (n_of_int signer) else None))
+       | "C" -> let hash = next_int r in let txs = read_list r next_int in Some (fun _ -> OConnect (n_of_int hash, List.map n_of_int txs))
+       | "D" -> Some (fun _ -> ODisconnect)
+       | _ -> None) in
+    ignore sgpos;
+    expect "SC";
+    let script = read_list r (fun r -> let tx = next_int r in let g = next_int r in let s = next_int r in
+      (n_of_int tx, ((match g with 0 -> G_in_mempool | 1 -> G_confirmed | 2 -> G_not_found | _ -> G_other), (if s = 0 then A_ok else A_code (z_of_int s))))) in
+    expect "SG";
+    let sg = next_int r in
+    expect "TR";
+    let impl = read_list r next in
+    expect "DB";
+    let has_db = next_int r = 1 in
+    let dump = if has_db then begin
+        let rest = Array.to_list (Array.sub r.toks r.pos (Array.length r.toks - r.pos)) in
+        let (tb, rest') = parse_tables rest in
+        r.pos <- Array.length r.toks - List.length rest'; Some tb end else None in
+    expect ";";
+    incr tr_ops;
+    List.iter (fun k -> bump tr_kinds k; if k <> "ACK" && k <> "RG" && k <> "RS" then incr tr_stmts) impl;
+    let text = Printf.sprintf "hist=%d step=%d op=%s" h stepi tag in
+    (match tag, mk, !t with
+     | "P", _, _ ->
+         if impl <> ["LKB"] then corr lineno "micro-steps" (Printf.sprintf "%s model=[LKB] impl=[%s]" text (String.concat "," impl));
+         recs := { first; nlab; before = !t; mop = None; msc = []; par = []; text } :: !recs;
+         (match dump, !t with
+          | Some tb, Some tm -> (match diff_tables (Model.db_of tm) tb with
+              | Some (f, m, i) -> corr lineno "tables" (Printf.sprintf "%s table=%s model=[%s] impl=[%s]" text f m i); t := None
+              | None -> ())
+          | _ -> ())
+     | _, None, _ ->
+         corr lineno "micro-steps" (Printf.sprintf "%s durable-steps-outside-any-operation impl=[%s]" text (String.concat "," impl));
+         t := None
+     | _, Some mk, None -> recs := { first; nlab; before = None; mop = Some (mk sg); msc = script; par = []; text } :: !recs
+     | _, Some mk, Some tm ->
+         let o = mk sg in
+         let segs = segs_tokens (op_segs log_enabled tm o script) in
+         (* micro-index ranges of the segments whose groups the code may run in another order: a kill strictly
+            inside one leaves a database the model's order does not predict *)
+         let par =
+           let pos = ref 0 in
+           List.fold_left (fun acc gs ->
+             let len = List.fold_left (fun a g -> a + List.length g) 0 gs in
+             let start = !pos in pos := !pos + len;
+             if List.length (List.filter (fun g -> g <> []) gs) > 1 then (start, start + len) :: acc else acc) [] segs in
+         if not (match_segs segs impl) then
+           corr lineno "micro-steps" (Printf.sprintf "%s model=[%s] impl=[%s]" text (show_segs segs) (String.concat "," impl));
+         recs := { first; nlab; before = Some tm; mop = Some o; msc = script; par; text } :: !recs;
+         let (t1, x) = step log_enabled tm o script in
+         (match x with
+          | OAbort _ -> corr lineno "abort" (Printf.sprintf "%s the model aborts" text); t := None
+          | _ ->
+              t := Some t1;
+              (match dump with
+               | Some tb -> (match diff_tables (Model.db_of t1) tb with
+                   | Some (f, m, i) -> corr lineno "tables" (Printf.sprintf "%s table=%s model=[%s] impl=[%s]" text f m i); t := None
+                   | None -> ())
+               | None -> ())))
+  done;
+  Hashtbl.replace hist_ops h (List.rev !recs)
 
 let fail kind lineno case detail =
   incr mon_fail;
@@ -77,13 +242,14 @@ let handle_ref lineno _line (r : reader) =
   Hashtbl.replace refs h { kinds; costs; final; sends = sends_of after_sends };
   if not (db_inv_b (db_of final)) then fail "dangling-records" lineno (Printf.sprintf "CRREF %d" h) "uninterrupted-run"
 
-let handle_minus _lineno _line (r : reader) =
+let handle_variant tbl _lineno _line (r : reader) =
   let h = next_int r in let i = next_int r in
   let rest = Array.to_list (Array.sub r.toks r.pos (Array.length r.toks - r.pos)) in
   let (_, after_final) = split_at "FINAL" rest in
   let (ft, after_sends) = split_at "SENDS" after_final in
   let (final, _) = parse_tables ft in
-  Hashtbl.replace minus (h, i) (final, sends_of after_sends)
+  Hashtbl.replace tbl (h, i) (final, sends_of after_sends)
+let handle_minus = handle_variant minus
 
 let handle_cr lineno _line (r : reader) =
   let h = next_int r in let c = next_int r in let label = next r in let step = next_int r in
@@ -92,6 +258,30 @@ let handle_cr lineno _line (r : reader) =
   Hashtbl.replace distinct case ();
   let rest = Array.to_list (Array.sub r.toks r.pos (Array.length r.toks - r.pos)) in
   let rf = Hashtbl.find refs h in
+  (* the database as the kill left it = the model's crash_at of the operation the crash point lies in *)
+  (match split_at "CRASHDB" rest with
+   | (_, []) -> ()
+   | (_, after) ->
+       let (tb, _) = parse_tables after in
+       if not (db_inv_b (db_of tb)) then fail "dangling-records" lineno case "at-the-kill";
+       let ops = (try Hashtbl.find hist_ops h with Not_found -> []) in
+       (match List.find_opt (fun o -> o.first <= c && c < o.first + o.nlab) ops with
+        | None -> incr crashdb_skip
+        | Some o ->
+            let off = c - o.first in
+            let k = if off mod 2 = 0 then off / 2 else (off + 1) / 2 in
+            (match o.before, o.mop with
+             | Some tm, None ->
+                 incr crashdb_cmp;
+                 (match diff_tables (Model.db_of tm) tb with
+                  | Some (f, m, i) -> corr lineno "crash-db" (Printf.sprintf "%s %s k=%d table=%s model=[%s] impl=[%s]" case o.text k f m i)
+                  | None -> ())
+             | Some tm, Some mo when not (List.exists (fun (a, b) -> a < k && k < b) o.par) ->
+                 incr crashdb_cmp;
+                 (match diff_tables (crash_at log_enabled (nat_of_int k) tm mo o.msc) tb with
+                  | Some (f, m, i) -> corr lineno "crash-db" (Printf.sprintf "%s %s k=%d table=%s model=[%s] impl=[%s]" case o.text k f m i)
+                  | None -> ())
+             | _ -> incr crashdb_skip)));
   (* restart *)
   List.iter (fun t ->
     if t = "restart=0" then fail "restart-failed" lineno case "bootstrap-panicked-or-tower-id-changed";
@@ -115,6 +305,13 @@ let handle_cr lineno _line (r : reader) =
     (* a request lost in the crash: the outcome is the run with it or the run without it, and the
        requester pays at most the slots of that request *)
     let (mfinal, _msends) = (try Hashtbl.find minus (h, step) with Not_found -> (rf.final, rf.sends)) in
+    (* blocks mined and not yet polled when the request arrived: the restart polls them at once, so the two
+       runs to compare with are the ones that poll right after this step *)
+    let (rfinal, mfinal) =
+      (match Hashtbl.find_opt refp (h, step), Hashtbl.find_opt minusp (h, step) with
+       | Some (a, _), Some (b, _) -> (a, b)
+       | _ -> (rf.final, mfinal)) in
+    let rf = { rf with final = rfinal } in
     let (cost, rloc, ruser) = (try List.assoc step rf.costs with Not_found -> (0, -1, -1)) in
     (* the record of the in-flight request itself may be absent, stored or responded to (no receipt was
        returned for it); everything else must be as in one of the two runs *)
@@ -148,9 +345,12 @@ let handle_cr lineno _line (r : reader) =
 
 let summary () =
   if !cases > 0 then
-    Printf.printf "SUMMARY kind=CR cases=%d histories=%d crash_points_in_histories=%d mon_fail=%d corr_fail=0 distinct_nontrivial=%d labels=%s\n"
-      !cases (Hashtbl.length refs) !crash_points !mon_fail (Hashtbl.length distinct)
+    Printf.printf "SUMMARY kind=CR cases=%d histories=%d crash_points_in_histories=%d mon_fail=%d corr_fail=%d distinct_nontrivial=%d trace_ops=%d trace_durable_steps=%d crashdb_compared=%d crashdb_skipped=%d labels=%s micro_kinds=%s\n"
+      !cases (Hashtbl.length refs) !crash_points !mon_fail !corr_fail (Hashtbl.length distinct) !tr_ops !tr_stmts !crashdb_cmp !crashdb_skip
       (String.concat "," (List.sort compare (Hashtbl.fold (fun k v acc -> Printf.sprintf "%s:%d" k v :: acc) labels [])))
+      (String.concat "," (List.sort compare (Hashtbl.fold (fun k v acc -> Printf.sprintf "%s:%d" k v :: acc) tr_kinds [])))
 
 let () =
-  register "CRREF" handle_ref; register "CRMINUS" handle_minus; register "CR" handle_cr; register_summary summary
+  register "CRTR" (fun lineno line r -> try handle_tr lineno line r with Failure m -> corr lineno "parse" m);
+  register "CRREF" handle_ref; register "CRMINUS" handle_minus; register "CR" handle_cr;
+  register "CRREFP" (handle_variant refp); register "CRMINUSP" (handle_variant minusp); register_summary summary
